@@ -3,7 +3,7 @@ PROPS["C02"] = dict(
     technique="concurrent-history PBT: rapid draws per-thread programs, real goroutines run them, the recorded history is decided by a linearizability checker (porcupine) with an executable per-key model plus winner/freshness counters",
     rule="case = T in 2..6(8) thread programs of up to 8(12) ops over 1..3 keys (Create/Get/Put/CasByVersion with last-seen, older or garbage "
          "version/Delete/GetMany/PutMany with and without a far-future expiry) or a race program (all threads create one key; all threads "
-         "read-then-CAS one key), on the in-memory backend and on Redis (miniredis); threads start behind a barrier and run freely with drawn "
+         "read-then-CAS one key), on the in-memory backend and on Redis (miniredis); in two cases out of five (half of the rediswire cases) all keys of the case are spelled with one or two leading '/' characters (the Redis backend maps such a key to the server key of the plain spelling: only one spelling is used per case); threads start behind a barrier and run freely with drawn "
          "Gosched calls; plus a hammer unit: 2..8 threads race Create on one fresh key (or CasByVersion on one version) behind a spin barrier "
          "for 200..1500(4000) rounds, with a context whose Err() yields the processor in half of the cases, winners counted directly; and a squeeze unit that forces pairs of in-memory operations (Create/Create, Create/Put, CAS/CAS, CAS/Put, CAS/Delete) "
          "into the order 'A's first critical section, all of B, A's next critical section' through the storage mutex (overlay accessor, FIFO hand-over of a "
